@@ -39,7 +39,7 @@ LEVEL_TEXT = "proof"
 TECHNIQUE = ("Lean 4 theorems over an executable model of linkify/make_link for every match list satisfying WellFormed; "
              "differential correspondence + Lean tokenizer oracle on every run")
 
-PROTOS = ["http", "https", "ftp", "mailto", "javascript", "HTTP", "Https", "x-y", "data", "a", "h_t-p", "http2"]
+PROTOS = ["http"] * 6 + ["https"] * 4 + ["ftp", "ftp", "mailto", "javascript", "HTTP", "Https", "x-y", "data", "a", "h_t-p", "http2"]
 SLASHES = ["/", "//", "//", "//", "///", "////", ""]
 HOSTS = ["example.com", "a.com", "www.example.com", "www.a.co.uk", "tornadoweb.org", "bücher.de", "localhost:8080", "a.b",
          "aaaaaaaaaaaaaaaaaaaaaaaaaaaaaaaaaaaaaaaaaaaaaa.com", "www.external-link.com", "1.2.3.4", "x"]
@@ -72,7 +72,7 @@ def _url(rng):
 
 def _boundary_url(rng):
     """& or " placed at a chosen column of a URL whose length straddles 30 / 45"""
-    head = rng.choice(["http://", "https://", "www.", "ftp:/", "mailto:///", "http://"])
+    head = rng.choice(["http://", "https://", "www.", "ftp:/", "mailto:///", "http://", "http://", "https://", "www."])
     col = rng.randint(18, 34)
     special = rng.choice(["&", "&", '"', "&x;", "&&", '"&', "&amp;", "&quot;"])
     total = rng.randint(28, 64)
